@@ -7,7 +7,8 @@
    Definitions only.  Constants and the type table come from Gen_Consts.v, which the harness regenerates
    from the source on every run.  The model follows what the code DOES (exceptions included); add_config
    is modelled WITH the repair fixes/F05b.patch (default-typed names are resolved once) and
-   SyncLogger.connect WITH fixes/F05d.patch (a session starts with an empty queue).
+   SyncLogger.connect WITH fixes/F05d.patch (a session starts with an empty queue), and the reset
+   acknowledgement WITH fixes/F05c.patch (flags of the blocks of the previous session are cleared).
    Tie: harness/props/c05.py runs the real classes on a fake Crazyflie and compares every observation. *)
 Require Export CF.Common.Bytes.
 Require Export CF.C05.Gen_Consts.
@@ -354,6 +355,19 @@ Definition assign_started (s : st) (h : nat) (b : bool) : st * list obs :=
 
 Definition err_known (e : Z) : bool := existsb (Z.eqb e) g_err_codes.
 
+(* the reset of the log system was acknowledged (fixes/F05c.patch): every configuration of log_blocks is
+   neither started nor added nor pending any more (callbacks fire for the changes) *)
+Fixpoint forget_blocks (s : st) (bl : list nat) : st * list obs :=
+  match bl with
+  | [] => (s, [])
+  | h :: r =>
+      let '(s1, o1) := assign_started s h false in
+      let '(s2, o2) := assign_added s1 h false in
+      let s3 := put s2 h (set_pending (get s2 h) 0) in
+      let '(s4, o4) := forget_blocks s3 r in
+      (s4, o1 ++ o2 ++ o4)
+  end.
+
 (* channel CHAN_SETTINGS of Log._new_packet_cb *)
 Definition on_settings (s : st) (cmd id status : Z) : step_result :=
   let ob := find_block s id in
@@ -406,7 +420,8 @@ Definition on_settings (s : st) (cmd id status : Z) : step_result :=
     | None =>
         (* log_blocks = []; toc = Toc(); TocFetcher(...).start() asks for the TOC info *)
         let ti := if s_v2 s then g_toc_info_v2 else g_toc_info in
-        (set_toc (set_blocks s []) (Some []), [OWire 5 g_chan_toc [ti] [ti]], None)
+        let '(s1, o1) := forget_blocks s (s_blocks s) in
+        (set_toc (set_blocks s1 []) (Some []), o1 ++ [OWire 5 g_chan_toc [ti] [ti]], None)
     | Some _ => (s, [], None)
     end
   else (s, [], None).
